@@ -72,6 +72,13 @@ def plan_items(prop, tier, seed, ncases):
         # "every dispatch variant once" sweep: 60 single-thread worlds, in every tier
         for q in range(60):
             items.append(("directed", (base % 20000) * 100000 + 90000 + q, tier, prop))
+        if prop == "C20":
+            # "same operation from two threads" sweep over the whole catalogue (object + NumPy; Awkward too in thorough)
+            from . import directed
+
+            npair = len(directed.pair_templates())
+            for q in range(npair if tier == "thorough" else (npair * 2) // 3):
+                items.append(("directed", (base % 20000) * 100000 + 80000 + q, tier, prop))
     for i in range(n):
         kind = bag[i % len(bag)]
         if kind == "directed":
